@@ -247,7 +247,7 @@ class Prober:
 
         for st in STEPS:
             acc = [v for v in (st, 2 * st, 3 * st) if s.accepts.get(v)]
-            if acc and all(rt(v) for v in acc):
+            if s.accepts.get(st) and all(rt(v) for v in acc):
                 s.step = st
                 s.status = "ok"
                 return
